@@ -131,6 +131,7 @@ func propC05(w *World, r *Report) {
 	checkDecodeSem(w, r)
 	checkStackSem(w, r)
 	checkStackCtl(w, r)
+	checkStemSem(w, r)
 	checkMoveState(w, r, fn)
 
 	// ---- safety of the interpreter (shared with C02)
